@@ -32,6 +32,9 @@ fn grammars() -> Vec<(&'static str, Option<&'static str>, bool)> {
         ("G2", Some("@export Root = { y:Y } $ ;\n@string Y = 'd' ;\n"), true),
         ("Gparse", Some("@export Root = 'a' x:X \nX = ;;\n"), false),
         ("Gcodegen", Some("@export Root = !( x:X ) ;\nX = 'b' ;\n"), false),
+        // G5 / G6 differ from each other only in whitespace, at a place where whitespace matters
+        ("G5", Some("@export Root = 'a b' x:X ;\nX = 'b' | 'c' ;\n"), true),
+        ("G6", Some("@export Root = 'ab' x:X ;\nX = 'b' | 'c' ;\n"), true),
     ]
 }
 
@@ -233,10 +236,10 @@ pub fn explore(mode: Mode, tier: Tier, st: &mut Stats, replay: Option<&[Op]>) ->
     let nf = w.nfiles();
     // menus: directory mode and format mode use smaller menus in the quick tier
     let gmenu: Vec<usize> = match (mode, tier) {
-        (Mode::Directory, Tier::Quick) => vec![1, 2, 3],
-        (Mode::Directory, Tier::Thorough) => vec![0, 1, 2, 3, 4],
-        (Mode::FileExplicitFormat, Tier::Quick) => vec![1, 2, 3],
-        _ => vec![0, 1, 2, 3, 4],
+        (Mode::Directory, Tier::Quick) => vec![1, 3, 5, 6],
+        (Mode::Directory, Tier::Thorough) => vec![0, 1, 2, 3, 4, 5, 6],
+        (Mode::FileExplicitFormat, Tier::Quick) => vec![1, 3, 5, 6],
+        _ => vec![0, 1, 2, 3, 4, 5, 6],
     };
     let pmenu: Vec<usize> = match (mode, tier) {
         (Mode::Directory, Tier::Quick) => vec![0, 1, 2],
